@@ -310,11 +310,18 @@ Definition dcall (c : call) : M bool := fun s =>
 (* `.ok_or(Error::Delegate)?` *)
 Definition must (m : M bool) : M unit := b <- m ;; if b then ret tt else fail DelegateErr.
 
-(* InterceptRev *)
+(* InterceptRev: the anchor that was resolved last is remembered for `<rev>^-<n>`; a call the delegate rejects
+   leaves the memory alone *)
 Definition find_ref (name : bytes) : M bool := fun s =>
-  dcall (CFindRef name) (mkSt (trace s) (answers s) (Some name) (last_prefix s) (is_done s)).
+  match dcall (CFindRef name) s with
+  | (s', Ok true) => (mkSt (trace s') (answers s') (Some name) None (is_done s'), Ok true)
+  | r => r
+  end.
 Definition disambiguate_prefix (p : bytes) (h : hint) : M bool := fun s =>
-  dcall (CPrefix p h) (mkSt (trace s) (answers s) (last_ref s) (Some (p, h)) (is_done s)).
+  match dcall (CPrefix p h) s with
+  | (s', Ok true) => (mkSt (trace s') (answers s') None (Some (p, h)) (is_done s'), Ok true)
+  | r => r
+  end.
 Definition done : M unit := fun s =>
   (mkSt ((CDone, true) :: trace s) (answers s) (last_ref s) (last_prefix s) true, Ok tt).
 Definition get_done : M bool := fun s => (s, Ok (is_done s)).
@@ -447,9 +454,8 @@ Definition at_braces (input name : bytes) (sep_pos : nat) (has_ref : bool) : M b
 (* `a.or_else(|| b)` on Option<()> results of delegate calls *)
 Definition or_else (a b : M bool) : M bool := x <- a ;; if x then ret true else b.
 
-(* fn revision(input) -> remaining input *)
-Definition revision (input : bytes) : M bytes :=
-  let colon :=
+(* the leading match of fn revision: `:`, `:/regex`, `:n:path`, `:path` consume everything *)
+Definition colon_form (input : bytes) : option (M bytes) :=
     match input with
     | c :: t =>
       if beqb c c_colon then
@@ -476,8 +482,11 @@ Definition revision (input : bytes) : M bytes :=
         end
       else None
     | [] => None
-    end in
-  match colon with
+    end.
+
+(* fn revision(input) -> remaining input *)
+Definition revision (input : bytes) : M bytes :=
+  match colon_form input with
   | Some m => m
   | None =>
     let '(sep_pos, chc) := scan input 0 0 (Some 0%nat) in
